@@ -137,6 +137,36 @@ Theorem C05_two_runs_agree_feasible : forall (F : OF) (n : nat) (C0 : vec -> Pro
 Proof. exact two_runs_agree_feasible. Qed.
 Print Assumptions C05_two_runs_agree_feasible.
 
+(* what a certificate means in DISTANCES: the certified point is, in squared distance to the input, within 2g of every
+   feasible point; with g = 0 it is at least as near as every feasible point; and a feasible point with an exact
+   certificate is THE nearest feasible point (unique on [0, n)) *)
+Theorem C05_certificate_near_optimal : forall (F : OF) (n : nat) (C0 : vec -> Prop) (x0 x : vec) (g : F),
+  (forall z, C0 z -> kle F (dot n (vsub x0 x) (vsub z x)) g) ->
+  forall z, C0 z -> kle F (dist2 F n x0 x) (cadd F (dist2 F n x0 z) (cadd F g g)).
+Proof. exact variational_near_optimal. Qed.
+Print Assumptions C05_certificate_near_optimal.
+
+Theorem C05_exact_certificate_is_nearest : forall (F : OF) (n : nat) (C0 : vec -> Prop) (x0 x : vec),
+  (forall z, C0 z -> kle F (dot n (vsub x0 x) (vsub z x)) (c0 F)) ->
+  forall z, C0 z -> kle F (dist2 F n x0 x) (dist2 F n x0 z).
+Proof. exact variational_is_nearest. Qed.
+Print Assumptions C05_exact_certificate_is_nearest.
+
+Theorem C05_nearest_unique : forall (F : OF) (n : nat) (C0 : vec -> Prop) (x0 x x' : vec),
+  (forall z, C0 z -> kle F (dot n (vsub x0 x) (vsub z x)) (c0 F)) ->
+  (forall z, C0 z -> kle F (dot n (vsub x0 x') (vsub z x')) (c0 F)) -> C0 x -> C0 x' -> veq n x x'.
+Proof. exact nearest_unique. Qed.
+Print Assumptions C05_nearest_unique.
+
+(* a Dykstra iterate (k >= 1 sweeps, obtuse-angle projections) whose gap is <= 0 is at least as near to the input as
+   every point of A /\ B; if it is itself in A /\ B it is therefore the nearest point *)
+Theorem C05_iterate_with_nonpositive_gap_is_nearest : forall (F : OF) (n : nat) (frz : vec -> vec), frz_ok F n frz ->
+  forall (PA PB : nat -> vec -> vec) (A B : vec -> Prop), obtuse F n A PA -> obtuse F n B PB ->
+  forall (x0 : vec) (k : nat), (1 <= k)%nat -> kle F (gap F n (iter F frz PA PB k (init F frz x0))) (c0 F) ->
+  forall z, A z -> B z -> kle F (dist2 F n x0 (sx (iter F frz PA PB k (init F frz x0)))) (dist2 F n x0 z).
+Proof. exact feasible_iterate_is_nearest. Qed.
+Print Assumptions C05_iterate_with_nonpositive_gap_is_nearest.
+
 (* order independence: "eq_ineq" after k sweeps vs "ineq_eq" after k' sweeps *)
 Theorem C05_orders_agree : forall (F : OF) (n : nat) (frz : vec -> vec), frz_ok F n frz ->
   forall (Peq Pineq : nat -> vec -> vec) (E I : vec -> Prop), obtuse F n E Peq -> obtuse F n I Pineq ->
@@ -224,6 +254,23 @@ Proof. intros F n. split; [apply diagop_iso|split; [apply diagop_sub|apply diago
 
 Example C05_example_frz : forall n, frz_ok Qc_OF n (vfreeze 0%Qc n).
 Proof. intros n v i Hi. now apply vfreeze_spec. Qed.
+
+(* the hypotheses of C05_iterate_with_nonpositive_gap_is_nearest / C05_nearest_unique are satisfiable:
+   A = { v | v_0 = 1 }, B = orthant, x_0 = (3, -1): one sweep gives x = (1, 0), which is in A /\ B, gap = 0 *)
+Definition ex1_x0 : @vec Qc_OF := fun i => match i with O => Q2Qc 3 | _ => Q2Qc (-1) end.
+Example C05_example_exact_nearest :
+  let s := iter Qc_OF (vfreeze 0%Qc 2) (projA Qc_OF 1%Qc) (projB Qc_OF) 1 (init Qc_OF (vfreeze 0%Qc 2) ex1_x0) in
+  obtuse Qc_OF 2 (setA Qc_OF 1%Qc) (projA Qc_OF 1%Qc) /\ obtuse Qc_OF 2 (setB Qc_OF 2) (projB Qc_OF) /\
+  setA Qc_OF 1%Qc (sx s) /\ setB Qc_OF 2 (sx s) /\ gap Qc_OF 2 s = 0%Qc /\
+  sx s 0%nat = 1%Qc /\ sx s 1%nat = 0%Qc.
+Proof. cbv zeta. split; [apply obtuse_A; auto|]. split; [apply obtuse_B|].
+  assert (E0 : sx (iter Qc_OF (vfreeze 0%Qc 2) (projA Qc_OF 1%Qc) (projB Qc_OF) 1 (init Qc_OF (vfreeze 0%Qc 2) ex1_x0)) 0%nat = 1%Qc)
+    by (vm_compute; apply Qc_is_canon; reflexivity).
+  assert (E1 : sx (iter Qc_OF (vfreeze 0%Qc 2) (projA Qc_OF 1%Qc) (projB Qc_OF) 1 (init Qc_OF (vfreeze 0%Qc 2) ex1_x0)) 1%nat = 0%Qc)
+    by (vm_compute; apply Qc_is_canon; reflexivity).
+  split; [exact E0|]. split.
+  - intros i Hi. destruct i as [|[|i]]; [rewrite E0|rewrite E1|lia]; vm_compute; discriminate.
+  - split; [vm_compute; apply Qc_is_canon; reflexivity|]. split; assumption. Qed.
 
 (* E = { v | v_0 + v_1 = 1 },  I = orthant,  x_0 = (2, -1),  eps = 1/1000, order eq_ineq:
    the model run stops (break) after 7 sweeps at x = (65/64, 0), gap = -63/4096 (negative: x is in I but only near E);
